@@ -53,7 +53,16 @@ def runSplitneutral (c : Case) : Res :=
       let has := fun (pat : String) => (m.splitOn pat).length > 1
       let noise := has "went below zero in 30-day period" || has "is more than the current" ||
            has "is lower than the share balance for the affiliate" || has "non-integer share balance"
-      if noise then
+      -- a declared amount sitting exactly on the 0.001 tolerance: after a restatement with a
+      -- non-terminating factor the computed amount carries 1e-27 of rounding, which then decides
+      let tolNoise := has "max allowed discrepancy" &&
+        (match m.splitOn "value (" with
+         | _ :: x :: y :: _ =>
+           (match parseRat? ((x.splitOn ")").headD ""), parseRat? ((y.splitOn ")").headD "") with
+            | some u, some v => rabs (rabs (u - v) - 1 / 1000) ≤ 1 / pow10 9
+            | _, _ => false)
+         | _ => false)
+      if noise || tolNoise then
         -- one of the runs was cut short by a decimal-rounding rejection (finding F-04n, reported
         -- under C04): the two row lists are not comparable
         { verdict := "ok", tags := "near=1" :: tags }
